@@ -318,8 +318,8 @@ Proof.
   eapply spec_cas_ok; eassumption.
 Qed.
 
-Lemma model_agrees_hist evs f :
-  model_agrees (CHist evs f) = true ->
+Lemma model_agrees_hist evs f conf recs :
+  model_agrees (CHist evs f conf recs) = true ->
   exists s, replay init evs = Some (s, true) /\ final_agree s f = true.
 Proof.
   cbn. destruct (replay init evs) as [[s b]|]; [|discriminate]. intros H.
@@ -342,7 +342,7 @@ Definition ex_history : list event :=
 Definition ex_final : final := Final [(2, 2, 2)] [(0, (1, 1)); (1, (2, 2)); (2, (2, 2))] true.
 
 Example ex_history_agrees :
-  model_agrees (CHist ex_history ex_final) = true /\ spec_hist ex_history ex_final = true.
+  model_agrees (CHist ex_history ex_final false []) = true /\ spec_hist ex_history ex_final = true.
 Proof. split; vm_compute; reflexivity. Qed.
 
 (** ... and the monitor does reject the old behaviour: thread 2 deleting account 2 *)
